@@ -7,7 +7,7 @@
     [sorts_to le r a] says: the run [r] returns [Ok b] (no panic, no hang) with [Permutation a b]
     and [Sorted le b].  [TotalPreorder cmp]: [cmp x y < 0 <-> 0 < cmp y x] and [cmp _ _ <= 0] is
     transitive (a Go comparator that is a total preorder; equal-comparing elements may differ). *)
-From Algo.C07 Require Import Model Spec ArrLemmas ProofsInsSel ProofsShell ProofsMerge ProofsHeap ProofsQuick ProofsQ3S ProofsMSDStr ProofsLSD ProofsRef.
+From Algo.C07 Require Import Model Spec ArrLemmas ProofsInsSel ProofsShell ProofsMerge ProofsHeap ProofsQuick ProofsQ3S ProofsMSDStr ProofsLSD ProofsMSDInt ProofsRef.
 Open Scope Z_scope.
 
 Section ComparisonSorts.
@@ -97,6 +97,26 @@ Proof. exact LSDInt_correct. Qed.
 Theorem C07_LSDUint : forall a : list Z, Forall uint64 a -> sorts_to Z.le (LSDUint a) a.
 Proof. exact LSDUint_correct. Qed.
 
+Theorem C07_MSDInt : forall a : list Z, Forall int64 a -> sorts_to Z.le (MSDInt a) a.
+Proof. exact MSDInt_correct. Qed.
+
+(** MSDUint, as repaired by the fix: commit (the signed variant's top-byte recursion removed). *)
+Theorem C07_MSDUint : forall a : list Z, Forall uint64 a -> sorts_to Z.le (MSDUint a) a.
+Proof. exact MSDUint_correct. Qed.
+
+(** The same, as equalities with the sorted slice ([ref_sort Z.leb]; [Z.le] on the signed resp.
+    unsigned value is the native order of int resp. uint). *)
+Theorem C07_ints_native : forall a : list Z,
+  (Forall int64 a -> LSDInt a = Ok (ref_sort Z.leb a) /\ MSDInt a = Ok (ref_sort Z.leb a)) /\
+  (Forall uint64 a -> LSDUint a = Ok (ref_sort Z.leb a) /\ MSDUint a = Ok (ref_sort Z.leb a)).
+Proof.
+  intros a. split; intros Ha; split; apply sorts_to_Z.
+  - apply LSDInt_correct, Ha.
+  - apply MSDInt_correct, Ha.
+  - apply LSDUint_correct, Ha.
+  - apply MSDUint_correct, Ha.
+Qed.
+
 (** Non-vacuity: concrete runs (a comparator on pairs that ignores the second component). *)
 Example C07_example :
   let cmp := fun x y : Z * Z => fst x - fst y in
@@ -105,6 +125,13 @@ Example C07_example :
   (Ok [(1, 1); (1, 3); (2, 2); (3, 0); (3, 4)], Ok [(1, 1); (1, 3); (2, 2); (3, 0); (3, 4)],
    Ok [(1, 1); (1, 3); (2, 2); (3, 4); (3, 0)], Ok [(1, 1); (1, 3); (2, 2); (3, 4); (3, 0)]).
 Proof. vm_compute. reflexivity. Qed.
+
+Example C07_example_radix :
+  LSDInt [2 ^ 63 - 1; -1; 0; - 2 ^ 63; 256; 255] = Ok [- 2 ^ 63; -1; 0; 255; 256; 2 ^ 63 - 1] /\
+  MSDUint [2 ^ 64 - 1; 0; 2 ^ 63; 1] = Ok [0; 1; 2 ^ 63; 2 ^ 64 - 1] /\
+  LSDString [[255; 97]; [97; 255]; [97; 0]; [0; 0]] 2 = Ok [[0; 0]; [97; 0]; [97; 255]; [255; 97]] /\
+  MSDString [[98]; []; [97; 98]; [97]; [97; 0]] = Ok [[]; [97]; [97; 0]; [97; 98]; [98]].
+Proof. vm_compute. repeat split; reflexivity. Qed.
 
 Print Assumptions C07_Selection.
 Print Assumptions C07_Insertion.
@@ -124,3 +151,6 @@ Print Assumptions C07_Quick3WayStringCore.
 Print Assumptions C07_strings_native.
 Print Assumptions C07_LSDInt.
 Print Assumptions C07_LSDUint.
+Print Assumptions C07_MSDInt.
+Print Assumptions C07_MSDUint.
+Print Assumptions C07_ints_native.
